@@ -1,0 +1,28 @@
+//go:build verif
+
+package updog
+
+import "go.etcd.io/bbolt"
+
+// verifClientCount is never called. It is the statement of C01 for the
+// in-memory writer and an index that reads its bitmaps on demand, written as a
+// piece of client code: the verifier checks it against the contracts of the
+// three functions it calls (and nothing else of them), so the contracts of
+// writer, open path and evaluation are shown to fit together.
+func verifClientCount(w *IndexWriter, db *bbolt.DB, e Expression) (uint64, bool) {
+	if err := w.WriteToBoltDatabase(db); err != nil {
+		return 0, false
+	}
+
+	idx, err := OpenIndexFromBoltDatabase(db)
+	if err != nil {
+		return 0, false
+	}
+
+	res, err := idx.Execute(&Query{Expr: e})
+	if err != nil {
+		return 0, false
+	}
+
+	return res.Count, true
+}
